@@ -124,15 +124,15 @@ class _AsyncBytesIO:
         return self._bytesio.read(size)
 
     def size(self):
-        """Get the total size of the wrapped stream.
+        """Get the number of bytes that remain to be read from the wrapped stream.
 
         Returns
         -------
         int
-            The number of bytes in the wrapped ``BytesIO`` object
+            The number of bytes between the current position and the end of the wrapped ``BytesIO`` object
 
         """
-        return self._bytesio.getbuffer().nbytes
+        return self._bytesio.getbuffer().nbytes - self._bytesio.tell()
 
     async def write(self, data):
         """Write data.
